@@ -41,6 +41,12 @@ Step ==
           \* isolate / integrate, load with a patch log): the patches turn the view before into the view after
           /\ Chk("C09", "patch-path-does-not-panic", E.res = "ok")
           /\ (E.res = "ok") => ChkT("C09", "incremental-patches-keep-the-view-equal", E.v1, E.patches, E.v2)
+          \* C29 through AutoCommit: isolate(H) shows the state at H; integrate() gives the un-isolated document plus
+          \* the changes made inside, and those changes depend only on H and on each other
+          /\ Chk("C29", "autocommit-isolate-shows-the-state-at-the-heads",
+                 (E.res = "ok" /\ E.kind = "isolate" /\ "want" \in DOMAIN E) => ViewOfProj(E.v2) = ViewOfProj(E.want))
+          /\ Chk("C29", "autocommit-integrate-merges-the-isolated-changes",
+                 (E.res = "ok" /\ E.kind = "integrate" /\ "want" \in DOMAIN E) => (ViewOfProj(E.v2) = ViewOfProj(E.want) /\ E.deps_ok))
           /\ UNCHANGED last
      ELSE IF HasView THEN
           /\ IF E.ev = "commit" /\ Len(E.iso) > 0
